@@ -1,5 +1,6 @@
 """C08 â€” the report document is always valid JSON and round-trips losslessly."""
 import json
+import os
 import re
 
 from common import Check, assert_repo_import, eval_cases, eval_one, canon_tree, coq_list, z, parse_tree
@@ -17,6 +18,8 @@ NASTY = ['q"uote', "back\\slash", "tab\there", "new\nline", "nul\x00", "Ã©", "æ—
          "urn:uuid:abcdef12-3456-7890-abcd-ef1234567890", "abcdef1234567890abcdef1234567890", " padded ", "MiXeD",
          # otherwise plain text that ENDS in (or is) one control character: `$` in a regular expression also matches before a
          # final line feed, so an "is it plain?" test lets these through (seeded change C08-13)
+         # what os.walk delivers for a file name that is not valid UTF-8 (surrogateescape): lone surrogates
+         "caf\udce9.py", "\udcff\udcfe", "dir\udc80",
          "\n", "plain\n", "plain\r", "plain\t", "\nlead", "x\n\n", "plain\x00", "tail\x0b", "tail\x0c", "tail\x85", "tail\u2028"]
 
 
@@ -157,6 +160,39 @@ def run(tier, seed, replay=None):
     from codelimit.common.report.ReportWriter import ReportWriter
     chk = Check("C08", tier, seed)
     model_ok = chk.proof_stage(["Report/Writer.vo", "Report/WriterProofs.vo"])
+    # ---- the document a scan leaves ON DISK: after the code base has shrunk (a file removed, functions deleted) the next
+    #      scan's document replaces the longer one entirely (seeded change C08-18: written in place without truncation)
+    import shutil
+    import tempfile
+    import fs_common as F
+    tmp_d = tempfile.mkdtemp(prefix="verif_c08d_")
+    try:
+        for k in range(4 if tier == "quick" else 40):
+            root = os.path.join(tmp_d, f"t{k}")
+            os.makedirs(os.path.join(root, "d"))
+            present = [("a.py", 31), ("d/b.js", 40), ("d/c.py", 16), ("d/e.ts", 70 if k % 2 else 31)]
+            for pth, cid in present:
+                F.write_file(root, pth, cid)
+            try:
+                F.run_scan(root, [])
+                victims = chk.rng.sample(present, chk.rng.choice([1, 2, 3]))
+                for pth, _ in victims:
+                    os.remove(os.path.join(root, pth))
+                on_disk, _ = F.run_scan(root, [])          # reads the document the scan left behind
+                shutil.rmtree(os.path.join(root, ".codelimit_cache"), ignore_errors=True)
+                fresh, _ = F.run_scan(root, [])
+                chk.evaluations += 1
+                chk.count("document on disk after the code base shrank")
+                if on_disk != fresh:
+                    chk.violation({"removed": [v[0] for v in victims]}, "after removing files the document the second scan left on disk "
+                                  "differs from the document of a scan without cache")
+                else:
+                    chk.nontrivial.add(("disk", k))
+            except Exception as ex:
+                chk.violation({"scenario": "shrinking code base"}, f"the document left on disk after the code base shrank cannot be read: "
+                              f"{type(ex).__name__}: {str(ex)[:120]}")
+    finally:
+        shutil.rmtree(tmp_d, ignore_errors=True)
     n = 250 if tier == "quick" else 8000
     cases = []
     texts = []
@@ -176,6 +212,10 @@ def run(tier, seed, replay=None):
                 vals.append(json.loads(txt))
             except ValueError as ex:
                 probs.append(f"{nm} document is not valid JSON: {ex}")
+            try:
+                txt.encode("utf-8")          # the document is written to a UTF-8 file: a name that is not valid UTF-8 on disk
+            except UnicodeEncodeError as ex:          # reaches it as a lone surrogate and has to be escaped (seeded change C08-17)
+                probs.append(f"{nm} document cannot be written as UTF-8: {ex}")
         if len(vals) == 2:
             if vals[0] != vals[1]:
                 probs.append("pretty and compact documents parse to different values")
